@@ -45,8 +45,36 @@ func derivesFrom(v, j ssa.Value, depth int) bool {
 		return derivesFrom(x.X, j, depth+1)
 	case *ssa.ChangeType:
 		return derivesFrom(x.X, j, depth+1)
+	case *ssa.Phi:
+		for _, e := range x.Edges {
+			if e != v && derivesFrom(e, j, depth+1) {
+				return true
+			}
+		}
 	}
 	return false
+}
+
+// rebased: v derives from j, and every phi edge (or v itself) that carries j also adds `off`: an offset found
+// in root[off:] becomes an offset into root once off is added.
+func rebased(v, j, off ssa.Value, depth int) bool {
+	if depth > 6 {
+		return false
+	}
+	if phi, ok := v.(*ssa.Phi); ok {
+		any := false
+		for _, e := range phi.Edges {
+			if e == v || !derivesFrom(e, j, depth+1) {
+				continue
+			}
+			any = true
+			if !rebased(e, j, off, depth+1) {
+				return false
+			}
+		}
+		return any
+	}
+	return derivesFrom(v, j, 0) && derivesFrom(v, off, 0)
 }
 
 func strIndexUses(p *core.Prog, rels []string) []strIndexUse {
@@ -79,6 +107,14 @@ func strIndexUses(p *core.Prog, rels []string) []strIndexUse {
 									}
 								}
 								same := s.X == searched
+								if !same {
+									// searched = root[off:], applied to root with off added back
+									if ss, ok := searched.(*ssa.Slice); ok && ss.High == nil && ss.Low != nil && ss.X == s.X {
+										okLow := s.Low == nil || !derivesFrom(s.Low, call, 0) || rebased(s.Low, call, ss.Low, 0)
+										okHigh := s.High == nil || !derivesFrom(s.High, call, 0) || rebased(s.High, call, ss.Low, 0)
+										same = okLow && okHigh
+									}
+								}
 								out = append(out, strIndexUse{f, s.Pos(), cal.String(), same, describeMismatch(searched, s.X)})
 							case *ssa.Index:
 								if derivesFrom(s.Index, call, 0) {
@@ -97,6 +133,9 @@ func strIndexUses(p *core.Prog, rels []string) []strIndexUse {
 
 func describeMismatch(searched, sliced ssa.Value) string {
 	d := "offset found in " + valueDesc(searched) + " is applied to " + valueDesc(sliced)
+	if ss, ok := searched.(*ssa.Slice); ok && ss.X == sliced {
+		d = "offset found in a suffix of the string (" + valueDesc(searched) + ") is applied to the whole string without adding the suffix's start back"
+	}
 	if c, ok := searched.(*ssa.Call); ok {
 		if cal := c.Call.StaticCallee(); cal != nil && strings.HasPrefix(cal.String(), "strings.To") {
 			d += " (case mapping can change the byte length, e.g. \"Ⱥ\" → \"ⱥ\")"
